@@ -478,6 +478,16 @@ func runC11(c *h.Ctx) {
 		defer tr.Free()
 		val := generic.NewValue(from, tr.B)
 		out, err := val.MarshalTo(to, gopts)
+		if err == nil {
+			// the result belongs to the caller: a second cut (identical descriptor, other option vector) must not touch it
+			held := append([]byte{}, out...)
+			generic.NewValue(from, tr.B).MarshalTo(from, &generic.Options{NotCheckRequireNess: true})
+			if !bytes.Equal(out, held) {
+				cs.Viol("cut:result-changed-by-later-call", "was", held, "now", out)
+				return
+			}
+			cs.Cover("cut_result_held_intact")
+		}
 		want := projErr(v, S, T, o)
 		cs.Cover(fmt.Sprintf("cut_opts_%02d", ob))
 		kind := "cut"
@@ -562,6 +572,17 @@ func runC11(c *h.Ctx) {
 		tr := h.TrapCopy(b, cs.R.Bool(), true)
 		defer tr.Free()
 		out, err := pg.NewRootValue(from, tr.B).MarshalTo(to, opts)
+		if err == nil {
+			held := append([]byte{}, out...)
+			pg.NewRootValue(from, tr.B).MarshalTo(from, &pg.Options{})
+			m9 := PGenMsg(cs.R, pc.Root, PValCfg{MaxElems: 3, MaxDepth: 2}, 0)
+			pg.NewRootValue(to, PMarshal(m9)).MarshalTo(to, &pg.Options{})
+			if !bytes.Equal(out, held) {
+				cs.Viol("pcut:result-changed-by-later-call", "was", held, "now", out)
+				return
+			}
+			cs.Cover("pcut_result_held_intact")
+		}
 		kind := "pcut"
 		if identical {
 			kind = "pcut:identical"
